@@ -17,7 +17,7 @@ PROP = dict(
     required_theorems=["Octo.C17.counting_fires", "Octo.C17.counting_ignores_watermarks", "Octo.C17.eos_once",
                        "Octo.C17.eos_trigger_silent", "Octo.C17.eos_trigger_spec", "Octo.C17.watermark_upto",
                        "Octo.C17.watermark_all", "Octo.C17.watermark_complete", "Octo.C17.no_early", "Octo.C17.run_prefix",
-                       "Octo.C17.C17_full", "Octo.C17.C17_refuted_raw"],
+                       "Octo.C17.emitted_was_polled", "Octo.C17.C17_full", "Octo.C17.C17_refuted_raw"],
     nontrivial=_nontrivial,
     rule="ops: `trig <cfg> :: events` = the real trigger object (materialised from physical.Trigger) driven one method call per "
          "event (KeyReceived / WatermarkReceived / EndOfStreamReached / Poll), and `gb …` = the real CustomTriggerGroupBy (see C16). "
@@ -44,11 +44,12 @@ PROP = dict(
                "returns nothing earlier and every received group at the end), watermark_upto / watermark_all (ON WATERMARK returns "
                "exactly the pending keys whose instant is <= the watermark), watermark_complete (node: when wm W is forwarded the "
                "output consolidates to the current table on every key <= W, for every configuration containing ON WATERMARK), "
-               "no_early (node, ON WATERMARK alone: nothing beyond the highest watermark received is emitted before the end). Tied "
+               "no_early (node, ON WATERMARK alone: nothing beyond the highest watermark received is emitted before the end), "
+               "emitted_was_polled (any configuration: every emitted record belongs to a key some primitive trigger just returned). Tied "
                "to the Go code by exact differential runs of the real trigger objects and the real node.",
     level_note="Trusted: Lean kernel; axioms propext, Classical.choice, Quot.sound; the correspondence harness; Go runtime; google/btree as an "
-               "ordered container. no_early is proved for ON WATERMARK alone; for combinations the statement 'unless another trigger "
-               "fired it' is covered per primitive trigger (watermark_upto) and by the oracle's per-trigger accounting.",
+               "ordered container. no_early is stated for ON WATERMARK alone; for combinations 'unless another trigger fired it' is "
+               "emitted_was_polled together with the per-trigger theorems (watermark_upto, counting_fires, eos_trigger_silent).",
     technique="Lean 4 proof (invariants of the trigger state machines and of the node, induction over event lists) + model/implementation correspondence",
     design_ref="DESIGN.md §3 C17",
 )
